@@ -10,7 +10,7 @@ RULE = ("histories over up to 3 prepared statements where every execution indepe
         "re-prepares, closes and executions of other statements; exhaustive over all rebind/reuse patterns of <= 4 executions "
         "on 2 statements with a 2-type alphabet; oracle: every execution delivers the types and values the client encoded; "
         "non-trivial = at least one reusing execution; distinct = distinct case text")
-ASSUMPTIONS = ["the shim pulls the parameters of every execution (a rebinding execution whose parameters are never pulled does not record its types: known limitation D13)"]
+ASSUMPTIONS = ["shim callbacks return"]
 
 
 def history_case(ctx, cid, plan=None, with_long=False, lim=U24_MAX):
@@ -85,8 +85,11 @@ def history_case(ctx, cid, plan=None, with_long=False, lim=U24_MAX):
                 vals.append(p[2]); call.append("param|%d|%s" % (p[0], p[3]))
         block = exec_block(nulls, types if rebind else None, vals)
         cmds.append(("execute", cmd_execute(ids[k], block)))
-        scripts.append("x all - done 0 0")
-        exp += ["execute|%d" % ids[k]] + call
+        # the shim may look at only some of the parameters (or none): what the NEXT executions are
+        # decoded with must not depend on that
+        pull = n if (plan or rng.random() < 0.7) else rng.randint(0, n)
+        scripts.append("x %s - done 0 0" % ("all" if pull == n else str(pull)))
+        exp += ["execute|%d" % ids[k]] + call[:pull]
         bound[k] = types
         for key in [key for key in pend if key[0] == k]:
             del pend[key]
